@@ -250,8 +250,11 @@ def extract(repo: str) -> Tuple[Dict[str, Any], List[str]]:
 
 
 def probe_update_from(repo: str) -> Dict[str, bool]:
-    """Behavioural constants of model.base.update_from that the handler model depends on (regenerated each run so the
-    model follows a repair of base.py made for C12): does update_from carry the value of an existing qualifier?"""
+    """Behavioural constants of model.base.update_from / update_nss_from that the handler model depends on.  They are
+    regenerated on every run so that the model follows a repair of base.py made for C12 (update_from is shared ground):
+      qualifierValueUpdated      is the value of an already present qualifier replaced?
+      classChangeReplaces        is a contained element whose class differs replaced (removed, then the new one added)
+                                 instead of being updated in place (which raises on this SDK's original tree)?"""
     from basyx.aas import model
     a = model.Submodel("x", qualifier=[model.Qualifier("t", model.datatypes.String, "1")])
     b = model.Submodel("x", qualifier=[model.Qualifier("t", model.datatypes.String, "2")])
@@ -260,7 +263,14 @@ def probe_update_from(repo: str) -> Dict[str, bool]:
         upd = a.get_qualifier_by_type("t").value == "2"
     except Exception:
         upd = False
-    return {"qualifierValueUpdated": upd}
+    a = model.Submodel("x", submodel_element=[model.Property("p", model.datatypes.String, "v")])
+    b = model.Submodel("x", submodel_element=[model.SubmodelElementCollection("p", [model.Property("q", model.datatypes.String, "v")])])
+    try:
+        a.update_from(b)
+        repl = isinstance(a.get_referable("p"), model.SubmodelElementCollection) and len(a.submodel_element) == 1
+    except Exception:
+        repl = False
+    return {"qualifierValueUpdated": upd, "classChangeReplaces": repl}
 
 
 def _s(x: str) -> str:
@@ -322,6 +332,8 @@ def render(t: Dict[str, Any], flags: Dict[str, bool]) -> str:
     o.append("")
     o.append("/-- behaviour of `Referable.update_from` probed on the current tree: is the value of an already present qualifier replaced? -/")
     o.append(f"def qualifierValueUpdated : Bool := {'true' if flags['qualifierValueUpdated'] else 'false'}")
+    o.append("/-- does `update_nss_from` replace a contained element of another class (remove, then add the new one; removals before additions)? -/")
+    o.append(f"def classChangeReplaces : Bool := {'true' if flags['classChangeReplaces'] else 'false'}")
     o.append("")
     o.append("end Basyx.Gen.Routes")
     return "\n".join(o) + "\n"
